@@ -289,16 +289,40 @@ func (_this *Reader) readSmallULEB128(name string, maxValue uint64) uint64 {
 }
 
 func (_this *Reader) readIntoBuffer(count int) {
-	_this.expandBufferTo(count)
-	dst := _this.buffer[:count]
-	for len(dst) > 0 {
-		if bytesRead, err := _this.reader.Read(dst); err != nil {
+	// The count comes from a length field in the document, which is not to be
+	// trusted: grow the buffer as the data actually arrives rather than
+	// reserving everything up front (a few bytes could otherwise make the
+	// decoder allocate gigabytes).
+	filled := 0
+	for filled < count {
+		if filled == len(_this.buffer) {
+			_this.growBufferKeeping(filled, count)
+		}
+		end := count
+		if end > len(_this.buffer) {
+			end = len(_this.buffer)
+		}
+		if bytesRead, err := _this.reader.Read(_this.buffer[filled:end]); err != nil {
 			_this.unexpectedError(err)
 		} else {
 			_this.markBytesRead(bytesRead)
-			dst = dst[bytesRead:]
+			filled += bytesRead
 		}
 	}
+}
+
+// Grow the buffer (at most to maxSize), keeping the first keepCount bytes.
+func (_this *Reader) growBufferKeeping(keepCount int, maxSize int) {
+	newSize := len(_this.buffer) * 2
+	if newSize < decoderStartBufferSize {
+		newSize = decoderStartBufferSize
+	}
+	if newSize > maxSize {
+		newSize = maxSize
+	}
+	newBuffer := make([]byte, newSize)
+	copy(newBuffer, _this.buffer[:keepCount])
+	_this.buffer = newBuffer
 }
 
 func (_this *Reader) expandBufferTo(minSize int) {
